@@ -95,10 +95,21 @@ fn script_args(r: &mut Rng) -> String {
     }
     s
 }
+/// A generated hosts-format entry: optional address, 0-3 leading `www.` labels, a host from the
+/// shared universe in mixed case, optional trailing dot / comment / blanks.
+fn hosts_line(r: &mut Rng) -> String {
+    let ip = r.pick(&["0.0.0.0 ", "127.0.0.1 ", "", "::1 ", "0.0.0.0\t", "127.0.0.1   "]);
+    let www = r.pick(&["", "", "www.", "www.www.", "WWW.www.", "www.www.www.", "wWw."]);
+    let host = r.pick(gen::HOSTS);
+    let host = if r.chance(1, 5) { host.to_uppercase() } else { host.to_string() };
+    let tail = r.pick(&["", "", "", " # comment", "#c", " ", "."]);
+    format!("{}{}{}{}", ip, www, host, tail)
+}
 fn structured_line(r: &mut Rng, real: &[String]) -> String {
     match r.below(12) {
         0 | 1 | 2 | 3 => gen::rule(r, true),
         4 | 5 | 6 => cosmetic_rule(r),
+        7 if r.chance(1, 2) => hosts_line(r),
         7 => (r.pick(HOSTS_LINES)).to_string(),
         8 => (r.pick(META_LINES)).to_string(),
         9 => {
@@ -428,6 +439,24 @@ fn hosts_vs_rule(line: &str) -> Result<Option<String>, String> {
             let (s1, s2) = (network_sig(&e1, &u, "https://src.example/", ty), network_sig(&e2, &u, "https://src.example/", ty));
             if s1 != s2 {
                 return Some(format!("request {} ({}): hosts engine {} vs rule engine {}", u, ty, s1, s2));
+            }
+        }
+        // the property's own wording: the entry behaves like `||host^` with the host AS WRITTEN in the
+        // entry (no normalisation done by this oracle) whenever the standard parser accepts that rule
+        if host.is_ascii() && !host.is_empty() {
+            let rule_raw = format!("||{}^", host);
+            if let Ok(g2) = NetworkFilter::parse(&rule_raw, true, Default::default()) {
+                let c = dump_filter(&g2);
+                if (a.mask, &a.filter, &a.hostname) != (c.mask, &c.filter, &c.hostname) {
+                    return Some(format!("hosts line parses to {:?}, the rule `{}` written with the same host to {:?}", a, rule_raw, c));
+                }
+                let e3 = Engine::from_rules_parametrised([rule_raw.as_str()], Default::default(), false, true);
+                for u in [format!("https://{}/x", ascii), format!("https://www.{}/x", ascii), format!("https://www.www.{}/x", ascii), format!("https://{}/x", lower)] {
+                    let (s1, s3) = (network_sig(&e1, &u, "https://src.example/", "script"), network_sig(&e3, &u, "https://src.example/", "script"));
+                    if s1 != s3 {
+                        return Some(format!("request {}: hosts engine {} vs engine of `{}` {}", u, s1, rule_raw, s3));
+                    }
+                }
             }
         }
         None
@@ -842,7 +871,7 @@ fn main() {
         let n = r.range(1, 10);
         let mut rules: Vec<String> = vec![];
         for _ in 0..n {
-            let l = if hosts { (r.pick(HOSTS_LINES)).to_string() } else { structured_line(&mut r, &real) };
+            let l = if hosts { if r.chance(1, 2) { hosts_line(&mut r) } else { (r.pick(HOSTS_LINES)).to_string() } } else { structured_line(&mut r, &real) };
             if no_newline(&l) {
                 rules.push(l);
             }
